@@ -8,7 +8,7 @@ from ..common import Names, rat
 from . import c14
 
 PROP = "C16"
-LEAN_MODULE = "VK.Props.C16"
+LEAN_MODULE = "VK.Props.C16Restrict"
 THEOREMS = [
     "VK.C16_whichBin_iff",
     "VK.C16_whichBin_width",
@@ -23,6 +23,8 @@ THEOREMS = [
     "VK.C16_slate_mcmc_reversible",
     "VK.C16_ic_uniform",
     "VK.C16_spatial_sorted",
+    "VK.C16_pl_restriction",
+    "VK.C16_PLRestrictionConsistent",
     "VK.C16_alternate_structure",
     "VK.C16_filter_order",
 ]
@@ -50,7 +52,8 @@ EXPLANATION = ("Theorems: which_bin selects bin i exactly when the flip lies in 
                "slate-BT satisfy detailed balance with respect to the C15 tables (so the tables are stationary); the IC "
                "distribution gives every complete ranking 1/n!; the distance sort returns a permutation of the candidates "
                "in non-decreasing distance, stable; crossover ballots alternate opposing/own candidates in their drawn "
-               "orders; restricting a drawn order to a slate keeps the relative order.")
+               "orders; restricting a drawn order to a slate keeps the relative order, and (marginalisation identity, all "
+               "sizes) the restricted order is distributed as successive sampling from the slate's own supports.")
 
 N_QUICK, N_THOROUGH = 2000, 24000
 
